@@ -102,6 +102,7 @@ class MemWriter:
         self.write_error = None     # exception to raise from write()
         self.drain_error = None     # exception to raise from drain()
         self.writes_after_close = 0
+        self.close_error = None         # exception the connection was lost with: wait_closed() re-raises it, as asyncio's does
         self.wait_closed_hook = None    # async callable() or None: how long the transport takes to finish closing
 
     def write(self, data):
@@ -129,6 +130,9 @@ class MemWriter:
     async def wait_closed(self):
         if self.wait_closed_hook is not None:
             await self.wait_closed_hook()
+        if self.close_error is not None:
+            # asyncio: a connection that was lost WITH an error (reset, broken pipe) makes wait_closed() raise that error
+            raise self.close_error
         return None
 
     def is_closing(self):
